@@ -30,6 +30,7 @@ inductive Pc where
   | createReread (rev : Nat)               -- conflict without value (Idx ≠ 0): about to read the index
   | createRetry (rev : Nat)                -- index vanished: about to commit the create batch again
   | createOver (rev : Nat) (old : Bytes)   -- tombstoned index seen: about to commit [cas idx old→rev, put ver]
+  | createRecheck (rev : Nat)              -- that cas failed its condition: about to read the index again (it may have been compacted away)
   | updateCommit (rev : Nat)               -- dealt, no drift: about to commit [cas idx exp→rev, put ver]
   | deleteDeal (old : Option (Bytes × Nat)) -- latest read; about to deal
   | deleteCommit (rev : Nat) (oldVal : Bytes) (modRev : Nat)
@@ -200,7 +201,17 @@ def stepClient (g : G) (c : Client) (f : Fault) : G :=
     let (r, st) := doCommit cf g.store [BOp.cas (idxKey key) (be8 rev) old, BOp.put (encode key rev) val] f
     let g := { g with store := st }
     let g := if applied r f then g.logWrite key rev (some val) else g
-    finishCreate g c key val rev r
+    match r with
+    | .conflict _ _ => g.setClient { c with pc := .createRecheck rev }
+    | r => finishCreate g c key val rev r
+  | .createRecheck rev, k =>
+    let (key, val) := match k with
+      | .create k v => (k, v)
+      | .update k v _ => (k, v)
+      | .delete k _ => (k, [])
+    match g.store.get (idxKey key) with
+    | some _ => finishCreate g c key val rev (.conflict none none)
+    | none => g.setClient { c with pc := .createRetry rev }
   -- ---- guarded update
   | .updateCommit rev, .update key val exp =>
     let (r, st) := doCommit cf g.store [BOp.cas (idxKey key) (be8 rev) (be8 exp), BOp.put (encode key rev) val] f
